@@ -169,10 +169,13 @@ def brentsroot(f, bounds, tol=None, verbose=False, return_interval=False):
     if verbose:
         with numpy.printoptions(precision=17, linewidth=200):
             print(f"[{numiter}] a={D.ar_numpy.to_numpy(a)}, b={D.ar_numpy.to_numpy(b)}, f(a)={D.ar_numpy.to_numpy(fa)}, f(b)={D.ar_numpy.to_numpy(fb)}")
+    # a root is certified either by a small residual or by a sign change bracketed to within the (relative) tolerance;
+    # the residual alone depends on the scale of f and fails for steep or discontinuous functions
+    success = (D.ar_numpy.abs(f(b)) <= tol) | ((fa * fb <= 0) & (D.ar_numpy.abs(b - a) <= tol * D.ar_numpy.maximum(1.0, D.ar_numpy.abs(b))))
     if return_interval:
-        return b, D.ar_numpy.abs(f(b)) <= tol, (a, b)
+        return b, success, (a, b)
     else:
-        return b, D.ar_numpy.abs(f(b)) <= tol
+        return b, success
 
 
 def brentsrootvec(f, bounds, tol=None, verbose=False, return_interval=False, accepts_mask=False):
@@ -314,6 +317,7 @@ def brentsrootvec(f, bounds, tol=None, verbose=False, return_interval=False, acc
     if verbose:
         with numpy.printoptions(precision=17, linewidth=200):
             print(f"[{numiter}] a={D.ar_numpy.to_numpy(a)}, b={D.ar_numpy.to_numpy(b)}, f(a)={D.ar_numpy.to_numpy(fa)}, f(b)={D.ar_numpy.to_numpy(fb)}, conv={D.ar_numpy.to_numpy(not_conv)}")
+    true_conv = true_conv | ((fa * fb <= 0) & (D.ar_numpy.abs(b - a) <= tol * D.ar_numpy.maximum(1.0, D.ar_numpy.abs(b))))
     if return_interval:
         return b, true_conv, (a, b)
     else:
